@@ -98,6 +98,7 @@ type oblSummary struct {
 	Model     string
 	Detail    string
 	Script    string
+	Candidate string // a model of the obligation's negation found after dropping the quantified facts (to be replayed)
 }
 
 func verifDir() string {
@@ -303,6 +304,10 @@ func cmdCheck(args []string) {
 				sm.Status = "undecided"
 				sm.Detail = o.Status + " " + o.Model
 				sm.Script = o.fullScript()
+				sm.Pos = o.Pos
+			}
+			if sm.Status == "undecided" && sm.Candidate == "" && o.Candidate != "" {
+				sm.Candidate = o.Candidate
 			}
 		}
 	}
@@ -512,7 +517,9 @@ func cmdCheck(args []string) {
 		if failed || line == "" {
 			rp := filepath.Join(vd, "out", "replay", pid+"_conformance_"+parts[0]+".replay")
 			os.MkdirAll(filepath.Dir(rp), 0o755)
-			os.WriteFile(rp, []byte("assumed contract "+parts[0]+" does not hold of the real code (bounded conformance run):\n"+out), 0o644)
+			rf := ReplayFile{Property: pid, Obligation: "conformance/" + parts[0], Status: "refuted", Clause: "assumed contract " + parts[0] + " holds of the real code on every input of the bounded conformance run", Solver: "go test -overlay", Detail: out, PkgDir: parts[1], TestName: parts[2], TestSrc: string(src), Result: "confirmed", Output: out}
+			data, _ := json.MarshalIndent(rf, "", " ")
+			os.WriteFile(rp, data, 0o644)
 			fmt.Printf("VIOLATION property=%s replay=%s obligation=conformance/%s status=refuted\n", pid, rp, parts[0])
 			viols = append(viols, violation{&oblSummary{Name: "conformance/" + parts[0], Status: "refuted"}, "refuted"})
 			bounded = append(bounded, "conformance run "+parts[0]+": FAILED")
